@@ -297,7 +297,7 @@ def targets(ctx):
 
     # ------------------------------------------------------------------ (b) unknown records
     @collecting
-    def unk_clauses(out, name, tree, unknown, positions, entry="parse"):
+    def unk_clauses(out, name, tree, unknown, positions, entry="parse", unknown2=()):
         cls = c.bp(name)
         mi = schema.msg(f"ks.{name}")
         want = norm(schema, mi, tree)
@@ -309,12 +309,17 @@ def targets(ctx):
         if norm(schema, mi, snap_ref(schema, mi, r)) != want:
             raise RuntimeError("reference disagrees on an interleaved encoding (harness)")
         m = guard("parse", decode_via, cls(), data, entry)
+        unknown_numbers = {u["n"] for u in unknown} | {u["n"] for u in unknown2}
+        inserted_in_order = [r.raw for r in wire.parse_records(data) if r.number in unknown_numbers]
+        if unknown2:
+            # a second payload (unknown records only) decoded into the SAME instance: everything received stays
+            more = [cm.unknown_to_record(u).raw for u in unknown2]
+            guard("parse_second", decode_via, m, b"".join(more), "load" if entry.startswith("load") else "parse")
+            inserted_in_order = inserted_in_order + more
         got = norm(schema, mi, guard("snapshot", snap_bp, schema, mi, m))
         if got != want:
             out.append(("unknown_disturbs_known", f"got {got!r:.300} want {want!r:.300}"))
         b2 = guard("bytes", bytes, m)
-        unknown_numbers = {u["n"] for u in unknown}
-        inserted_in_order = [r.raw for r in wire.parse_records(data) if r.number in unknown_numbers]
         try:
             emitted = [r.raw for r in wire.parse_records(b2) if r.number in unknown_numbers]
             if emitted != inserted_in_order:
@@ -336,15 +341,20 @@ def targets(ctx):
     def unk_ev(case):
         name, tree, unknown, pos = case["msg"], case["tree"], case["unknown"], case["pos"]
         entry = case.get("entry", "parse")
-        found = unk_clauses(name, tree, unknown, pos, entry)
+        unknown2 = case.get("unknown2", [])
+        found = unk_clauses(name, tree, unknown, pos, entry, unknown2)
         wts = sorted({u["wt"] for u in unknown})
         fails = []
         for cl, d in found:
             single = [u for i, u in enumerate(unknown) if any(c2 == cl for c2, _ in unk_clauses(name, tree, [u], [pos[i]], entry))]
-            where = "+".join(sorted({f"wt{u['wt']}" + ("_bigtag" if u["n"] >= 2**21 else "") for u in single})) or "combo"
+            where = "+".join(sorted({f"wt{u['wt']}" + ("_bigtag" if u["n"] >= 2**21 else "") + ("_padded" if any(u.get(k) for k in ("tp", "lp", "vp")) else "") for u in single})) or ("second_payload" if unknown2 else "combo")
             fails.append(Failure(cl, f"unk|{cl}|{where}|{entry}", f"case={case!r} :: {d}"))
         n_known = len(tree)
         labs = [f"msg:{name}"] + [f"wt:{w}" for w in wts] + [f"n_unknown:{len(unknown)}"]
+        if unknown2:
+            labs.append("second_payload_into_same_instance")
+        if any(u.get(k) for u in unknown for k in ("tp", "lp", "vp")):
+            labs.append("non_minimal_varint_in_unknown_record")
         for p in pos:
             labs.append("position:" + ("first" if p % (n_known + 1) == 0 else "other"))
         return Eval(fails, nontrivial=bool(unknown), labels=labs)
@@ -359,6 +369,8 @@ def targets(ctx):
         case["unknown"] = us
         case["pos"] = draw(st.lists(st.integers(0, 40), min_size=len(us), max_size=len(us)))
         case["entry"] = draw(st.sampled_from(ENTRIES))
+        if draw(st.integers(0, 3)) == 0:
+            case["unknown2"] = draw(st.lists(cm.unknown_record_strategy(cm.unused_numbers(mi)), min_size=1, max_size=2))
         return case
 
     return [
